@@ -1198,7 +1198,7 @@ def _work(args):
 
 
 def nprocs():
-    return max(2, min(12, (os.cpu_count() or 4) - 2))
+    return max(2, min(10, (os.cpu_count() or 4) - 2))
 
 
 def run_domains(ctx, pid, groups):
@@ -1212,16 +1212,35 @@ def run_domains(ctx, pid, groups):
     stats = [dict() for _ in groups]
     ntasks = sum(len(t) for _, t, _ in groups)
     with mp.get_context("spawn").Pool(min(nprocs(), max(1, ntasks))) as pool:
-        to_split = [(o.asdict(), d) for _, tasks, _ in groups for o, n, d in tasks if d and not n]
-        parts = dict((repr(od), pre) for od, pre in pool.imap_unordered(_partition, to_split, chunksize=1))
-        work = []
+        # tasks with a split depth are first cut into sub-trees (by a worker), every sub-tree is one work item
+        splitting, working = [], []
         for gi, (dom, tasks, fidelity) in enumerate(groups):
             for o, n, d in tasks:
-                od = o.asdict()
-                for fixed in parts.get(repr(od), [()]) if (d and not n) else [()]:
-                    work.append((pid, od, tuple(fixed), n, ctx.seed, fidelity, gi))
-        # big subtrees first
-        for out in pool.imap_unordered(_work, work, chunksize=1):
+                if d and not n:
+                    splitting.append((gi, fidelity, n, pool.apply_async(_partition, ((o.asdict(), d),))))
+                else:
+                    working.append(pool.apply_async(_work, ((pid, o.asdict(), (), n, ctx.seed, fidelity, gi),)))
+
+        def results():
+            while splitting or working:
+                progressed = False
+                for item in list(splitting):
+                    gi, fidelity, n, ar = item
+                    if ar.ready():
+                        splitting.remove(item)
+                        od, prefixes = ar.get()
+                        for fixed in prefixes:
+                            working.append(pool.apply_async(_work, ((pid, od, tuple(fixed), n, ctx.seed, fidelity, gi),)))
+                        progressed = True
+                for ar in list(working):
+                    if ar.ready():
+                        working.remove(ar)
+                        progressed = True
+                        yield ar.get()
+                if not progressed:
+                    time.sleep(0.05)
+
+        for out in results():
             dom = groups[out["group"]][0]
             st = stats[out["group"]]
             for key, nt in zip(out["keys"], out["nontrivial"]):
@@ -1360,14 +1379,18 @@ def e2e(cfg, timeout=120):
 def e2e_c14():
     """the C14 function-level finding in real runs: node a fails after it was seen running while the independent
     chain b -> c -> d is half way; the property demands that d still runs"""
-    nodes = ["a@4.0", "b", "c<b@9.0", "d<c"]
+    import concurrent.futures as cf
+
+    nodes = ["a@3.0", "b", "c<b@7.0", "d<c"]
     lines = []
-    for title, sub, fail in [
-        ("cf worker n_procs=2, a fails after 4 s while c (independent, 9 s) is running", {"worker": "cf", "n_procs": 2}, ["100<>"]),
+    runs = [
+        ("cf worker n_procs=2, a fails after 3 s while c (independent, 7 s) is running", {"worker": "cf", "n_procs": 2}, ["100<>"]),
         ("cf worker n_procs=2, nothing fails", {"worker": "cf", "n_procs": 2}, []),
         ("debug worker, a fails (sequential loop: the first failure ends the run by design)", {"worker": "debug"}, ["100<>"]),
-    ]:
-        r = e2e({"name": "e2e14", "nodes": nodes, "submitter": sub, "fail_ids": fail, "linger": 0.0})
+    ]
+    with cf.ThreadPoolExecutor(len(runs)) as ex:
+        res = list(ex.map(lambda r: e2e({"name": "e2e14", "nodes": nodes, "submitter": r[1], "fail_ids": r[2]}), runs))
+    for (title, sub, fail), r in zip(runs, res):
         if "started" not in r:
             lines.append(f"{title}: no result ({r})")
             continue
@@ -1377,13 +1400,17 @@ def e2e_c14():
 
 
 def e2e_c16():
-    nodes = ["a@2.0", "b@9.0", "c@5.0", "d@5.0"]
+    import concurrent.futures as cf
+
+    nodes = ["a@2.0", "b@8.0", "c@5.0", "d@5.0"]
     lines = []
-    for title, sub in [
-        ("cf worker n_procs=4 max_concurrent=2, four independent jobs a(2s) b(9s) c(5s) d(5s)", {"worker": "cf", "n_procs": 4, "max_concurrent": 2}),
+    runs = [
+        ("cf worker n_procs=4 max_concurrent=2, four independent jobs a(2s) b(8s) c(5s) d(5s)", {"worker": "cf", "n_procs": 4, "max_concurrent": 2}),
         ("debug worker max_concurrent=2, same workflow", {"worker": "debug", "max_concurrent": 2}),
-    ]:
-        r = e2e({"name": "e2e16", "nodes": nodes, "submitter": sub})
+    ]
+    with cf.ThreadPoolExecutor(len(runs)) as ex:
+        res = list(ex.map(lambda r: e2e({"name": "e2e16", "nodes": nodes, "submitter": r[1]}), runs))
+    for (title, sub), r in zip(runs, res):
         if "started" not in r:
             lines.append(f"{title}: no result ({r})")
             continue
